@@ -148,9 +148,9 @@ def run(ctx: Ctx):
             cases.append(hc.random_case(rng, codec))
     cases += hc.nf_cases(rng, 250 if q else 3000)
     for codec in hc.CODECS2:
-        for _ in range(n):
+        for _ in range(300 if q else n):
             cases.append(hc.random_case2(rng, codec))
-    cases += hc.nf_cases2(rng, 200 if q else 3000)
+    cases += hc.nf_cases2(rng, 150 if q else 3000)
     by = {}
     for c in cases:
         by[(c["op"], c["codec"])] = by.get((c["op"], c["codec"]), 0) + 1
